@@ -81,6 +81,12 @@ func NewPair(prog *hast.Program, scripts []string, o PairOpts, garbage *core.Ran
 		p.RLog.Add("bump()=" + nv.String())
 		return nv, true, nil
 	}
+	// the game has a command of its own called "stop" (say, for the music): <<stop>> is the dialogue's own
+	// statement and never reaches it
+	rcmds["stop"] = func(a []model.Val) error {
+		p.RLog.Add("<<stop " + mon.FmtArgs(a) + ">> DISPATCHED TO THE HOST'S HANDLER")
+		return nil
+	}
 	// wipe(): a host function that clears the variable store it was given (a "new game" button wired to a
 	// script function) and returns 1
 	mfuncs["wipe"] = func(a []model.Val) (model.Val, bool, error) {
